@@ -236,14 +236,15 @@ def _total(run, P):
         seen.add(f)
         n += 1
         g = CFG(f.node)
-        falls = [a for a, lab in g.pred[g.exit] if lab != "return"]
+        live = g.reachable([g.entry], include_start=True)
+        falls = [a for a, lab in g.pred[g.exit] if lab != "return" and a in live]
         rets = [s for s in func_body_stmts(f.node) if isinstance(s, ast.Return)]
         bare = [s for s in rets if s.value is None or (
             isinstance(s.value, ast.Constant) and s.value.value is None)]
         ok = not falls and not bare and bool(rets)
         run.ob("C09.total", f, f.node, ok,
                construct=f"{name}: returns on every non-raising path"
-                         + (f" (falls off after L{falls[0].lineno})" if falls else ""),
+                         + (" (a path falls off the end)" if falls else ""),
                why="a handler that falls off its end records the kind None: the "
                    "variable has no kind and the Fortran generator fails with "
                    "'unknown variable kind'")
